@@ -30,6 +30,7 @@ CONFIGS = {
     "pulay": dict(converger=[2]),
     "adaptive_sp2": dict(converger=[1], sp2=[True, 1e-7]),
     "fixed_sp2": dict(converger=[0, 0.2], sp2=[True, 1e-7]),
+    "adaptive_sp2_tight": dict(converger=[1], sp2=[True, 1e-9]),     # requested below the package's floor (1e-7 in float64): must behave like the floor, not worse
     "uhf_singlet": dict(converger=[1], uhf=True),
     "uhf_singlet_fixed": dict(converger=[0, 0.3], uhf=True),
     # Krylov-subspace solver (known finding F29: energy-only stopping rule; finite electronic temperature 300 K ~ integer occupations for gaps > 2 eV)
@@ -75,7 +76,7 @@ def probe_solver_pair(inp: Dict[str, Any]) -> Dict[str, Any]:
     if np.asarray(a["notconverged"]).any() or np.asarray(b["notconverged"]).any():
         return {"ok": True, "observed": ["a solver did not converge: flagged, skipped"], "expected": "", "predicate": "", "fields": {"skipped": True}}
     sp2 = "sp2" in inp["a"] or "sp2" in inp["b"]
-    e_eff = max(eps, 1e-7) if sp2 else eps
+    e_eff = max(eps, 1e-7) if sp2 else eps          # (the package floors the purification tolerance at 1e-7 in float64)
     tolE, tolF = max(2e-8, 500 * e_eff), max(2e-6, 5e4 * e_eff)
     for k, tol in (("Etot", tolE), ("Hf", tolE), ("force", tolF), ("q", tolF)):
         d = float(np.max(np.abs(a[k] - b[k])))
@@ -96,6 +97,25 @@ def probe_solver_pair(inp: Dict[str, Any]) -> Dict[str, Any]:
                 kinds.add("e_mo")
     return {"ok": not bad, "observed": bad[:6], "expected": "same energy, forces, charges, orbital energies within K*eps",
             "predicate": "|out(cfg a) - out(cfg b)| <= K*eps", "fields": {"kinds": sorted(kinds), "a": inp["a"], "b": inp["b"], "method": method, "restart": inp.get("restart") or "cold", "ksa": "ksa" in (inp["a"], inp["b"])}}
+
+
+def probe_sp2_ladder(inp: Dict[str, Any]) -> Dict[str, Any]:
+    """tightening the purification tolerance (SCF threshold fixed and tight) moves the result monotonically toward the diagonalisation answer"""
+    names, method = inp["names"], inp["method"]
+    ref = esh.run_named(names, esh.settings(method=method, eps=1e-11, converger=[1]))
+    ladder = [1e-4, 1e-5, 1e-6, 1e-7, 1e-8, 1e-10]
+    errs = []
+    for e in ladder:
+        r = esh.run_named(names, esh.settings(method=method, eps=1e-10, converger=inp.get("converger", [1]), sp2=[True, e]))
+        errs.append(float(np.max(np.abs(r["Etot"] - ref["Etot"]))))
+    bad = []
+    for i in range(1, len(errs)):
+        if errs[i] > max(errs[i - 1] * 2.0, 2e-8):
+            bad.append(f"tightening the SP2 tolerance {ladder[i-1]:g} -> {ladder[i]:g} makes the energy worse: {errs[i-1]:.2e} -> {errs[i]:.2e} eV")
+    if errs[-1] > 5e-6:
+        bad.append(f"at the tightest purification tolerance the energy is still {errs[-1]:.2e} eV from the diagonalisation result")
+    return {"ok": not bad, "observed": bad or [f"errors {['%.1e' % v for v in errs]}"], "expected": "errors shrink as the purification tolerance is tightened", "predicate": "monotone within slack",
+            "fields": {"kinds": ["sp2_ladder"] if bad else [], "cfg": "sp2", "method": method}}
 
 
 def probe_tightening(inp: Dict[str, Any]) -> Dict[str, Any]:
@@ -119,7 +139,7 @@ def probe_tightening(inp: Dict[str, Any]) -> Dict[str, Any]:
             "fields": {"kinds": ["tightening"], "cfg": cfg, "method": method}}
 
 
-PROBES = {"solver_pair": probe_solver_pair, "tightening": probe_tightening}
+PROBES = {"solver_pair": probe_solver_pair, "tightening": probe_tightening, "sp2_ladder": probe_sp2_ladder}
 
 
 def gen_cases(ctx: Ctx):
@@ -142,6 +162,7 @@ def gen_cases(ctx: Ctx):
     # both SP2 configurations on a mixed-size batch, second one on the reversed batch
     cases.append(("solver_pair", {"names": ["h2o", "ch2o", "c2h4"], "method": "AM1", "eps": 1e-9, "a": "adaptive_sp2", "b": "fixed_sp2", "seed": 1, "restart": None, "perm": True}))
     cases.append(("solver_pair", {"names": [str(rng.choice(["h2o", "nh3", "ch2o"]))], "method": str(rng.choice(["AM1", "PM3"])), "eps": float(rng.choice([1e-8, 1e-9])), "a": "ksa", "b": "adaptive", "seed": 1, "restart": None}))
+    cases.append(("sp2_ladder", {"names": [str(rng.choice(pool))], "method": str(rng.choice(methods)), "converger": [[1], [2], [0, 0.2]][ctx.seed % 3]}))
     for i in range(4 if ctx.thorough else 1):
         cases.append(("tightening", {"names": [str(rng.choice(pool))], "method": methods[i % 4], "cfg": ["adaptive", "pulay", "fixed3", "adaptive_sp2"][i % 4]}))
     return cases
